@@ -427,8 +427,10 @@ class Check:
         cov.update(self.extra)
         ev = {"property_id": self.pid, "tier": self.tier, "seed": self.seed, "level": "proof",
               "coverage": cov, "assumptions": self.assumptions, "wall_s": round(wall, 2), "violations": nviol}
-        os.makedirs(os.path.join(VERIF, "evidence"), exist_ok=True)
-        json.dump(ev, open(os.path.join(VERIF, "evidence", self.pid + ".json"), "w"), indent=1)
+        # mutation experiments (bin/seedtest) write their evidence elsewhere: evidence/ holds runs against /repo only
+        evdir = os.environ.get("VERIF_EVIDENCE_DIR") or os.path.join(VERIF, "evidence")
+        os.makedirs(evdir, exist_ok=True)
+        json.dump(ev, open(os.path.join(evdir, self.pid + ".json"), "w"), indent=1)
         for l in lines:
             print(l, flush=True)
         print("%s %s tier=%s seed=%d obligations=%d/%d cases=%d nontrivial=%d failures=%d broken=%d wall=%.1fs" % (
